@@ -197,7 +197,7 @@ func PadLeft[T ~string](str T, size int, token string) T {
 	strLen := len(str)
 	tokenLen := len(token)
 
-	if size <= strLen {
+	if size <= strLen || tokenLen == 0 {
 		return T(str)
 	}
 
@@ -218,7 +218,7 @@ func PadRight[T ~string](str T, size int, token string) T {
 	strLen := len(str)
 	tokenLen := len(token)
 
-	if size <= strLen {
+	if size <= strLen || tokenLen == 0 {
 		return T(str)
 	}
 
@@ -242,7 +242,7 @@ func Pad[T ~string](str T, size int, token string) T {
 	strLen := len(str)
 	tokenLen := len(token)
 
-	if size <= strLen {
+	if size <= strLen || tokenLen == 0 {
 		return T(str)
 	}
 	split := float64(size-strLen) / 2
